@@ -246,7 +246,9 @@ class TimeDependentLinearPDE(LinearPDE):
         """Solve PDE by time-stepping"""
         # initialize time-dependent solution
         self.assemble_step(self.time_steps[0])
-        u = np.empty((len(self.initial_condition), len(self.time_steps)))
+        dtype = np.result_type(float, np.asarray(self.initial_condition).dtype,
+                               getattr(self.diff_op, 'dtype', float), np.asarray(self.rhs).dtype)
+        u = np.empty((len(self.initial_condition), len(self.time_steps)), dtype=dtype)
         u[:, 0] = self.initial_condition
         info = None
 
